@@ -291,14 +291,14 @@ func (r *Run) Extra(k string, v any) {
 	r.mu.Unlock()
 }
 
-func (r *Run) SetRule(s string)           { r.rule = s }
-func (r *Run) Assume(s ...string)         { r.assumptions = append(r.assumptions, s...) }
-func (r *Run) SetExhaustive(b bool)       { r.exhaustive = b }
-func (r *Run) Done()                      { r.completed = true }
-func (r *Run) NumViolations() int         { r.mu.Lock(); defer r.mu.Unlock(); return len(r.violations) }
-func (r *Run) Evals() int64               { r.mu.Lock(); defer r.mu.Unlock(); return r.evals }
-func (r *Run) ClassCount(n string) int64  { r.mu.Lock(); defer r.mu.Unlock(); return r.classes[n] }
-func (r *Run) NontrivialCount() int       { r.mu.Lock(); defer r.mu.Unlock(); return len(r.nontriv) }
+func (r *Run) SetRule(s string)          { r.rule = s }
+func (r *Run) Assume(s ...string)        { r.assumptions = append(r.assumptions, s...) }
+func (r *Run) SetExhaustive(b bool)      { r.exhaustive = b }
+func (r *Run) Done()                     { r.completed = true }
+func (r *Run) NumViolations() int        { r.mu.Lock(); defer r.mu.Unlock(); return len(r.violations) }
+func (r *Run) Evals() int64              { r.mu.Lock(); defer r.mu.Unlock(); return r.evals }
+func (r *Run) ClassCount(n string) int64 { r.mu.Lock(); defer r.mu.Unlock(); return r.classes[n] }
+func (r *Run) NontrivialCount() int      { r.mu.Lock(); defer r.mu.Unlock(); return len(r.nontriv) }
 
 func raw(v any) json.RawMessage {
 	b, err := json.Marshal(v)
